@@ -176,7 +176,12 @@ def gen_cases(tier, seed):
                                          'stdin_redirect': src}],
                               'ending': ending, 'concurrent': True,
                               'end_when': 'settled', 'chunk': 'all',
-                              'stride': 1 if tier == 'thorough' else 4,
+                              # (every crash point for the plain scripts:
+                              # the redirection is set up asynchronously and
+                              # may come up after the channel is gone)
+                              'stride': 1 if tier == 'thorough' or (
+                                  acts == ['drain'] and ending in (
+                                      'close_then_wait', 'none')) else 4,
                               'cseed': 18})
     for i in range(n):
         chans = []
